@@ -395,8 +395,9 @@ VISIT = r'''
  * is a symbolic input, so "the watched tuple is visited equally often by both, and the totals agree" for ALL
  * watched tuples is multiset equality of the visited iterator values. ---- */
 #define REFCAP %(refcap)d
-static long wa, wb, wc; static int nvis[2], nwatch[2]; static int which; static long lastv[2][3]; static int tr_wrapped;
+static long wa, wb, wc; static int nvis[2], nwatch[2]; static int which; static long lastv[2][3]; static int tr_wrapped, ref_negative;
 static void rec3(void *out, long a, long b, long c) {
+  if (which == 0 && (a < 0 || b < 0)) ref_negative = 1;      /* the sequential loop takes a negative iterator value */
   if (which == 1 && ((a >= (1L << 31) && a < (1L << 32)) || (b >= (1L << 31) && b < (1L << 32)))) tr_wrapped = 1;   /* a value 2^32 too large: 32-bit unsigned index arithmetic zero-extended into a 64-bit iterator */
   if (which == 0) { if (nvis[0] >= REFCAP) { __CPROVER_assume(0); } }        /* stated bound on the sequential trip count */
   else if (nvis[1] >= REFCAP + 1) { if (!(VERIF_EXCL_WRAPPED && tr_wrapped)) { VASSERT(0, "translated code executes more iterations than the sequential loop"); } __CPROVER_assume(0); }
@@ -541,7 +542,7 @@ def known_reconfirm(ctx, progs, known, harness_fn, timeout=150):
     (then the check prints KNOWN-FINDING); returns the queries (expect='fail')."""
     out = []
     for key, text in known.items():
-        for p in progs:
+        for p in sorted(progs, key=lambda pr: 0 if key in getattr(pr, 'reconfirms', ()) else 1):
             mode = None
             if key in p.excl_post:
                 pred = p.excl_post[key]
